@@ -402,7 +402,7 @@ def gen_smtp_all(rnd, ndouble, full=False):
                     if st == 'eod1' and not lmtp:
                         continue
                     for o in reuse_outcomes:
-                        if st == 'banner' and o == '1xx':
+                        if st in ('banner', 'ehlo') and (o in ('1xx', '3xx') or (o == '500' and st == 'ehlo' and not lmtp)):
                             continue
                         e1 = expect_smtp(lmtp, 2, st, OUTCOMES[o][0])
                         cases.append(smtp_case(lmtp, pipelining, 2, st, o, [fault(st, o)], [e1, ['D', 'D']],
@@ -1085,10 +1085,10 @@ def classify(clause, case, m, extra='', crashes=()):
                 return 'type/smtp/out-of-range-reply-code->ValueError'
             if k == 'pipe' and exc == 'TypeError' and case['cls'] == 'maildrop':
                 return 'type/pipe/maildrop-nonzero-exit->TypeError'
-            if k == 'pipe' and exc == 'UnicodeDecodeError':
-                return 'type/pipe/%s-non-utf8-output->UnicodeDecodeError' % case['cls']
-            if k == 'pipe' and exc == 'TypeError':
-                return 'type/pipe/%s-nonzero-exit->TypeError' % case['cls']
+            if k == 'pipe' and exc == 'UnicodeDecodeError' and case['cls'].startswith('pipe-'):
+                return 'type/pipe/non-utf8-program-output->UnicodeDecodeError'
+            if k == 'pipe' and exc == 'TypeError' and case['cls'] == 'dovecot':
+                return 'type/pipe/dovecot-nonzero-exit-with-output->TypeError'
             return 'unclassified/type/%s/%s/%s/raised-%s' % (k, fam, outcome, exc)
         if res['end'] == 'returned-error-object':
             if k == 'pipe':
@@ -1096,8 +1096,10 @@ def classify(clause, case, m, extra='', crashes=()):
             return 'unclassified/type/%s/%s/%s/returned-error-object' % (k, fam, outcome)
         return 'unclassified/type/%s/%s/%s/%s' % (k, fam, outcome, extra or res['end'])
     if clause == 'ends':
-        if k in ('smtp', 'lmtp') and fam.split('+')[-1] == 'eod' and case['pipelining'] and \
-                ('stall' in outcome or 'partial-silence' in outcome):
+        if k in ('smtp', 'lmtp') and case['pipelining'] and any(
+                stage_family(f['stage']) == 'eod' and (f['action'][0] == 'stall' or (
+                    f['action'][0] == 'raw' and not f['action'][1].endswith(b'\n') and len(f['action']) == 2))
+                for f in case['faults']):
             return 'attempt-does-not-end/smtp/eod-reply-never-arrives/pipelining'
         if k == 'http':
             died = sorted(set(crashes))
